@@ -31,8 +31,10 @@ def parse(text: str, statement_stream_processor: "StatementStreamProcessor", *, 
         pr.visit(_get_grammar().parse(text))  # type: ignore
     except _error.Error as ex:
         # Inject error location. If this exception is being propagated from a recursive instance, it already has
-        # its error location populated, so nothing will happen here.
-        ex.set_error_location_if_unknown(line=pr.current_line_number)
+        # its error location populated, so nothing will happen here. An error that already carries a path comes from
+        # another file (a dependency), so our line number would be meaningless for it.
+        if not ex.path:
+            ex.set_error_location_if_unknown(line=pr.current_line_number)
         raise ex
     except parsimonious.ParseError as ex:
         raise DSDLSyntaxError("Syntax error", line=int(ex.line())) from None  # type: ignore
